@@ -222,7 +222,11 @@ def rerun(leg, cases, timeout=900):
     except OSError:
         pass
     shown = "\n".join(l[:600] for l in out.split("\n") if not l.startswith("G\t") and not l.startswith("D\t"))
+    LAST_SETTINGS[:] = [x for x in m if x["kind"] == "settings"]
     return [x for x in m if x["kind"] == "spec"], [l for l in other if l.startswith("LIMIT\t")], shown
+
+
+LAST_SETTINGS = []   # the calls that changed pest's process-wide settings in the last rerun
 
 
 def read_episodes(path):
@@ -296,6 +300,11 @@ def run(tier, seed, replay=None):
         if lim and not sp:
             res.violation("replayed text: the freshly generated parser still does not finish within %d calls where the checked-in parser returns%s" % (FRESH_CALL_LIMIT, where),
                           {"case": rj.get("case", ""), "rule": rj.get("rule", "grammar_rules"), "input": rj.get("input", "-"), "pre": rj.get("pre", []), "features": leg["feat"]})
+        if LAST_SETTINGS and not sp:
+            x = LAST_SETTINGS[0]
+            res.violation("replayed call: the public entry %s still changes pest's process-wide settings%s: before `%s`, after `%s`" % (x["case"].split(" entry=")[-1].split()[0], where, x["expected"], x["impl"]),
+                          {"case": rj.get("case", ""), "rule": rj.get("rule", "grammar_rules"), "input": rj.get("input", "-"), "pre": rj.get("pre", []), "features": leg["feat"],
+                           "impl": x["impl"], "before": x["expected"]})
         if sp:
             res.violation("replayed text is still parsed differently by the checked-in parser and %s%s" % (" / ".join(sorted(set(against_name(x["case"]) for x in sp))), where),
                           {"case": rj.get("case", ""), "rule": rj.get("rule", "grammar_rules"), "input": rj.get("input", "-"), "pre": rj.get("pre", []), "features": leg["feat"],
@@ -319,7 +328,7 @@ def run(tier, seed, replay=None):
     # (2)-(4) structural reading + differential runs
     count = 150 if tier == "quick" else 4000
     maxmodel = 300 if tier == "quick" else 1500
-    rd = os.path.join(BUILD, "c14_read.txt")
+    rd = os.path.join(BUILD, "c14_read_%d.txt" % os.getpid())   # private per process: concurrent checks (other repositories) do not collide
     with open(rd, "w") as f:
         f.write(readout + ("\n" + xline + "\n" if xline else ""))
     cmds = ["cat %s | %s %d" % (rd, runner, maxmodel)]
@@ -365,6 +374,10 @@ def run(tier, seed, replay=None):
             cmds.append("%s large %s %d %s %d %s| %s -1 %s" % (leg["hbin"], REPO, seed, epfiles[leg["feat"]], pct, leg["pipe"], runner, tag_of(leg["feat"])))
     mism, stats, which, diffs = run_pipes(cmds)
     per = list(PER_CMD)
+    try:
+        os.remove(rd)
+    except OSError:
+        pass
     stats_x = {}
     for pc in per[n_default:]:
         if tag_of("extras") and pc["cmd"].rstrip().endswith(tag_of("extras")):
@@ -453,7 +466,7 @@ def run(tier, seed, replay=None):
         for m in sorted(settings_m, key=lambda m: len(m["case"])):
             rule, inp = case_parts(m["case"])
             feat = feat_of(m["case"])
-            if (rule, inp, feat) in seen or len(lcmds) >= 4 or "cl=Some" not in m["impl"]:
+            if (rule, inp, feat) in seen or feat in [f for f, _, _ in lfeat] or "cl=Some" not in m["impl"]:   # one follow-up per build of the crates
                 continue
             seen.add((rule, inp, feat))
             lf = os.path.join(BUILD, "c14_leak_%d_%d.txt" % (os.getpid(), len(lcmds)))
